@@ -356,5 +356,5 @@ def phases(tier):
     quick = tier == 'quick'
     return [
         Phase('small-maps', check_case, gen=gen_maps(3 if quick else 4), exhaustive=True),
-        Phase('histories', check_case, strategy=strategy, examples=2500 if quick else 60000),
+        Phase('histories', check_case, strategy=strategy, examples=6000 if quick else 150000),
     ]
